@@ -279,6 +279,19 @@ Definition prop_perform_join (args : list bytes) : bytes :=
   | _ => bs "badargs"
   end.
 
+(* ---------- HandleInviteV3 ---------- *)
+Definition dec_v3 (j : json) : iv3_extra :=
+  {| v3_proto_room := gs "proto_room" j; v3_proto_type := gs "proto_type" j;
+     v3_proto_membership := gerr_str "proto_membership" j; v3_invited_user := gs "invited_user" j;
+     v3_sender_id := gerr_str "created_sender_id" j; v3_build_ok := gb "build_ok" j |}.
+Definition run_invite_v3 (args : list bytes) : bytes :=
+  with_cfg args (fun j => print_event_result (handle_invite_v3 (dec_v3 j) (dec_iv j JNull))).
+Definition prop_invite_v3 (args : list bytes) : bytes :=
+  match args with
+  | [_; cfg; obs] => with_cfg [cfg; cfg] (fun j => oracle (invite_v3_admissible (dec_v3 j) (dec_iv j JNull)) obs)
+  | _ => bs "badargs"
+  end.
+
 (* ---------- PerformInvite ---------- *)
 Definition dec_latest (j : json) : pi_latest :=
   {| pl_room_exists := gb "room_exists" j; pl_depth := gz "depth" j; pl_state_ok := gb "state_ok" j;
@@ -344,6 +357,8 @@ Definition ops_C15 : list (bytes * (list bytes -> bytes)) :=
     (bs "C15.perform_join", run_perform_join);
     (bs "C15.restricted_join", run_restricted_join);
     (bs "C15.fields", run_fields);
+    (bs "C15.invite_v3", run_invite_v3);
+    (bs "C15.prop.invite_v3", prop_invite_v3);
     (bs "C15.perform_invite", run_perform_invite);
     (bs "C15.prop.perform_invite", prop_perform_invite);
     (bs "C15.prop.make_join", prop_make_join);
